@@ -324,6 +324,19 @@ func (f *Frame) nameIndex() map[string][]nameRef {
 // resolveLocal finds the SSA value for a source variable name as seen at the
 // header of loop l (nil loop: at function exit).
 func (f *Frame) resolveLocal(l *Loop, name string, st *State, phi map[*ssa.Phi]Val) (Val, bool) {
+	if name == "_V1" && l != nil {
+		// visited set of the innermost enclosing loop
+		var outer *Loop
+		for _, o := range f.loops {
+			if o != l && o.blocks[l.header] && (outer == nil || len(o.blocks) < len(outer.blocks)) {
+				outer = o
+			}
+		}
+		if outer == nil {
+			return Val{}, false
+		}
+		return f.resolveLocal(outer, "_V", st, phi)
+	}
 	if name == "_V" && l != nil && l.header != nil {
 		for _, in := range l.header.Instrs {
 			if nx, ok := in.(*ssa.Next); ok {
